@@ -1,7 +1,7 @@
 (* Properties/C05.v -- C05: texture depends on the strain path, not on the strain rate *)
 From Coq Require Import Reals ZArith List.
 From Coquelicot Require Import Hierarchy Derive.
-From PV Require Import Num NumR Model_core Model_minerals Proofs_core Proofs_minerals Proofs_rhs Proofs_flow Proofs_path.
+From PV Require Import Num NumR Model_core Model_minerals Proofs_core Proofs_minerals Proofs_rhs Proofs_flow Proofs_path Proofs_path2 Proofs_path3.
 Import ListNotations.
 Open Scope R_scope.
 
@@ -58,3 +58,17 @@ Proof. exact strain_path_not_rate. Qed.
 
 Example C05_nonvacuous : length [1; 0; 0; 0; -1; 0; 0; 0; 0] = 9%nat /\ 1e-15 <> 0 /\ is_eigmax [1; 0; 0; 0; -1; 0; 0; 0; 0] 1.
 Proof. exact C05_nonvacuous_proof. Qed.
+
+(* the scale used by f_scaled in the capstone is not supplied by hand: if sh is the strain-rate scale of the
+   history Lh (the eigenvalue oracle's characterisation, on D = sym L), then k.sh(k t) is the strain-rate scale
+   of the scaled, time-compressed history k.Lh(k t) *)
+Theorem C05_scaled_history_scale : forall (Lh : R -> list R) (sh : R -> R) (k : R),
+  0 < k -> (forall t, length (Lh t) = 9%nat) ->
+  (forall t, is_eigmax (@sym9 NumR (Lh t)) (sh t)) ->
+  forall t, is_eigmax (@sym9 NumR (map (Rmult k) (Lh (k * t)))) (k * sh (k * t)).
+Proof. exact scaled_history_scale. Qed.
+
+(* non-vacuity: the constant pure-shear history Lh t = shear_L = diag(1,-1,0) has strain-rate scale sh t = 1 *)
+Example C05_scaled_history_nonvacuous :
+  length shear_L = 9%nat /\ is_eigmax (@sym9 NumR shear_L) 1.
+Proof. exact scaled_history_nonvacuous_proof. Qed.
